@@ -70,7 +70,7 @@ def convert(leaf, v, tr, tables):
             return ("c-any", [(a, b), (float("nan"), float("nan"))])
         return ("c", (a, b))
     if k == "s":
-        return ("U", "" if v is None else v.strip())
+        return ("U", "" if v is None else v.rstrip("\0").strip())  # padding = blanks and trailing NULs
     if k in ("u8", "u16", "u32", "u64"):
         if e:
             from fractions import Fraction
